@@ -7,12 +7,19 @@
   EG.Model.CallTranslate. Helper lemmas: EG/Lemmas/TextLayoutTranslate.lean.
 
   -- [V] text: calls (hence picture) of the translated text when exactly one of text / background colour is set (the colour adapter lowers glyph cells to `draw_iter` over `area.points()`; moving `Rectangle::points` needs the i32-range side conditions): carried by correspondence + oracle only; proved: positions, returned position, box, calls on the binary target for every style, target calls when both or neither colour is set
+  -- [V] text: `translate_mut` has the same effect as `translate` (mutation through `&mut self` is not modelled; `translate_mut_eq_translate` is definitional in the model): carried by correspondence + oracle only
 -/
 import EG.Lemmas.TextLayoutTranslate
 namespace EG.C07.Text
 open EG EG.Font EG.TextLayout
 
-/-- `translate_mut` does what `translate` does, and only the position changes. -/
+/-- `translate_mut` does what `translate` does, and only the position changes.
+DEFINITIONAL (every component is `rfl`): the model defines `Text.translateMut` and `Text.translate`
+by the same expression (`position += by` / `position + by`, text.rs:92-105), so this states how the
+model was written, not a property of the code; mutation through `&mut self` is not modelled.
+"`translate_mut` has the same effect as `translate`" is carried by the oracle on the real code
+(`C07:text-translate-mut-ne-translate`, the `mut=` field of `text.layout`), see the [V] line below. Not to be counted as a
+proved sub-claim. -/
 theorem translate_mut_eq_translate (t : TextLayout.Text) (d : Pt) :
     t.translateMut d = t.translate d ∧ (t.translate d).position = t.position + d ∧
     (t.translate d).text = t.text ∧ (t.translate d).style = t.style ∧ (t.translate d).ts = t.ts :=
